@@ -517,6 +517,10 @@ def replay(case):
     if case.get("engine") == "rsx":
         return rsx.replay(case)
     common.prepare_stage()
+    if case.get("class") == "short-reply":
+        from .. import histcheck
+
+        return histcheck.replay(case, ("reply",))
     if case.get("driver"):
         res = common.Result()
         run_public_block(case, res)
@@ -568,6 +572,20 @@ def run(tier):
     rsx.run("c01", tier, rec)
     cases = list(gen_cases(tier))
     common.run_cases(rec, work, cases, chunk=1, timeout=900, case_timeout=600)
+    # "touches memory outside the received bytes" without a crash: an authentic AES reply whose scoped PDU arrives k octets short
+    # (every length residue mod 16 x k = 1..15), right after a complete reply of the same shape went through the decrypt buffer -
+    # a value delivered here was completed from octets the datagram never carried
+    from .. import histcheck
+
+    short = []
+    for auth in (1, 2):
+        cfg = Cfg("v3", auth=auth, priv=2)
+        for n_ in range(16):
+            h = []
+            for k in range(1, 16):
+                h += [["get", 0, "sys"], ["reply", 0, "octets", 40 + n_], ["get", 0, "sys"], ["reply", 0, "cut", 40 + n_, k], ["reply", 0, "octets", 40 + n_]]
+            short.append({"class": "short-reply", "cfgs": [cfg.describe()], "history": h})
+    common.run_cases(rec, histcheck.make_work(("reply",)), short, chunk=2)
     n = rec.counters["rsx_decodes"] + rec.counters["datagrams"] + rec.counters["public_calls"]
     return rec.finish(evaluations=n, distinct_nontrivial=rec.counters["rsx_e1_strings"] + rec.counters["rsx_e2_inputs"] + rec.counters["rsx_e3_inputs"] + rec.counters["rsx_e4_decrypts"] + rec.counters["rsx_e5_inputs"] + rec.counters["datagrams"],
                       states=n, transitions=n, traces=rec.counters["datagrams"])
